@@ -369,16 +369,28 @@ func emitVar(o *out, p *packages.Package, short, name string, val ast.Expr) {
 			o.add("Definition %s_%s : list Z := [%s].", short, name, strings.Join(vals, "; "))
 		case *types.Slice:
 			var vals []string
+			idx := 0
 			for _, e := range v.Elts {
-				if _, ok := e.(*ast.KeyValueExpr); ok {
-					return
+				var ve ast.Expr = e
+				if kv, ok := e.(*ast.KeyValueExpr); ok {
+					ktv := p.TypesInfo.Types[kv.Key]
+					if ktv.Value == nil {
+						return
+					}
+					k, _ := constant.Int64Val(ktv.Value)
+					idx = int(k)
+					ve = kv.Value
 				}
-				tv := p.TypesInfo.Types[e]
+				tv := p.TypesInfo.Types[ve]
 				z, ok := coqZ(tv.Value)
-				if !ok {
+				if !ok || idx < 0 || idx > 1<<20 {
 					return
 				}
-				vals = append(vals, z)
+				for len(vals) <= idx {
+					vals = append(vals, "0%Z")
+				}
+				vals[idx] = z
+				idx++
 			}
 			o.add("Definition %s_%s : list Z := [%s].", short, name, strings.Join(vals, "; "))
 		case *types.Map:
